@@ -4,8 +4,10 @@ use std::io::Write;
 
 pub mod calendar;
 pub mod duration;
+pub mod durfloat;
 pub mod durtext;
 pub mod epoch;
+pub mod f64ops;
 
 pub fn salt(prop: &str) -> u64 {
     let mut h: u64 = 0xcbf29ce484222325;
@@ -22,6 +24,8 @@ pub fn inputs(prop: &str, r: &mut Rng, n: usize, tier: &str, out: &mut dyn Write
         "C02" => duration::inputs_c02(r, n, tier, out),
         "C03" => duration::inputs_c03(r, n, tier, out),
         "C14" => duration::inputs_c14(r, n, tier, out),
+        "C18" => durfloat::inputs_c18(r, n, tier, out),
+        "F64" => f64ops::inputs_f64(r, n, tier, out),
         "C11" => durtext::inputs_c11(r, n, tier, out),
         "C13D" => durtext::inputs_c13d(r, n, tier, out),
         "C08" => calendar::inputs_c08(r, n, tier, out),
@@ -52,6 +56,12 @@ pub fn exec(op: &str, args: &[&str]) -> Option<String> {
     if let Some(r) = durtext::exec(op, args) {
         return Some(r);
     }
+    if let Some(r) = f64ops::exec(op, args) {
+        return Some(r);
+    }
+    if let Some(r) = durfloat::exec(op, args) {
+        return Some(r);
+    }
     None
 }
 
@@ -60,4 +70,5 @@ pub fn dump_consts(m: &mut serde_json::Map<String, serde_json::Value>) {
     epoch::dump_consts(m);
     calendar::dump_consts(m);
     durtext::dump_consts(m);
+    durfloat::dump_consts(m);
 }
